@@ -1,19 +1,52 @@
 """Source of truth for MANIFEST.json (run tools/gen_manifest.py after editing)."""
-SOURCE_COMMITS = []
+SOURCE_COMMITS = ["472f3d5", "0f80483", "29ef46c", "c52c224", "5831e59", "4bfa3bb"]   # all "fix:" commits (no hooks)
 NOTES = ("Static analysis only. Every check parses /repo's working tree with Python's ast module (and re._parser for "
          "regular-expression syntax trees) and never imports or runs pycparser. Exit 0 ok / 1 VIOLATION / 2 ANALYSIS-ERROR "
          "(fail closed). Known genuine defects are listed in known_findings.json and printed as KNOWN-FINDING lines.")
 ENGINES = [
-    {"name": "E0 srcmodel", "path": "sa/srcmodel.py", "serves_properties": ["C12", "C13", "C14", "C15", "C17"],
+    {"name": "E0 srcmodel", "path": "sa/srcmodel.py", "serves_properties": ["C01", "C06", "C09", "C10", "C12", "C13", "C14", "C15", "C16", "C17", "C18"],
      "kind_free_text": "ast-based program model, module-level constant folder"},
     {"name": "E5 stateflow", "path": "sa/stateflow.py", "serves_properties": ["C12", "C13", "C17"],
      "kind_free_text": "write-effect / ownership / alias analysis"},
     {"name": "E5b taint", "path": "sa/taint.py", "serves_properties": ["C17"],
      "kind_free_text": "forward information-flow analysis with tuple/collection shapes and interprocedural summaries"},
+    {"name": "E2 rxmodel/lexmodel", "path": "sa/rxmodel.py, sa/lexmodel.py", "serves_properties": ["C06", "C09", "C10", "C16", "C18"],
+     "kind_free_text": "regex syntax trees -> ordered Thompson NFA -> leftmost-first DFA (model of re backtracking), tokeniser automaton, reference C99 lexical languages, EDA ambiguity analysis"},
+    {"name": "E1 rdmodel/grammar", "path": "sa/rdmodel.py, sa/grammar.py, sa/e1.py", "serves_properties": ["C01", "C06", "C16", "C18"],
+     "kind_free_text": "abstract interpreter of the recursive-descent parser over the token-stream-effect domain: per-production event automata, FIRST/FIRST2, Dyck balance, progress, memoised recogniser"},
     {"name": "E4 astspec", "path": "sa/astspec.py", "serves_properties": ["C14", "C15"],
      "kind_free_text": "AST specification reader and node-class shape extractor"},
 ]
 CHECKS = [
+    {"id": "C06", "engine": "E0+E1+E2", "level": "other",
+     "text": "Exception-escape analysis over the 137 functions reachable from CParser.parse: every raise is the ParseError channel or proved dead (match exhaustiveness; finite "
+             "abstract evaluation of _parse_constant over the tokeniser model's suffix windows); every assert is discharged automatically by the grammar model or by a named, recorded argument; "
+             "None-dereferences are searched on every path of the extracted grammar automata; attribute reads on specifier-list elements are checked against the class set stored there; constant-index "
+             "subscripts need a guard or a recorded argument; every _parse_error call site passes a real location; termination by absence of left recursion and token progress of every loop.",
+     "design_ref": "DESIGN.md section 3, C06",
+     "note": "Recorded arguments (ASSERT_ARGUMENTS / PARTIAL_ARGUMENTS / HETERO_ARGUMENTS in sa/props/c06.py) are trusted readings, one construct each; RecursionError is tolerated by the property; interpreter-level exceptions (MemoryError) out of scope.",
+     "technique": "exception-escape / effect analysis on ast + abstract interpretation of the parser (grammar automata) + regex automata"},
+    {"id": "C10", "engine": "E0+E2", "level": "other",
+     "text": "Exact language comparison for strings of every length: the tokeniser function (leftmost-first model of the master regex composed with the fixed-token scan) is compared by automata "
+             "products with reference C99 6.4.4/6.4.5 languages (lower bound, per named part) and the documented lenient languages (upper bound); malformed-literal languages must reach ERROR rules; "
+             "constant typing is decided by evaluating _parse_constant on the finite abstraction (class x last-three-characters window) computed from the same automaton.",
+     "design_ref": "DESIGN.md section 3, C10 and Appendix D",
+     "note": "Assumes Python's re implements ordered alternation / greedy repetition / 1-char negative look-ahead as modelled (cross-checked once against re on 300k random strings during development, not at check time); reference languages are my reading of C99.",
+     "technique": "regular-language inclusion on DFAs built from re._parser syntax trees (leftmost-first determinisation) + finite abstract evaluation"},
+    {"id": "C16", "engine": "E0+E1+E2", "level": "other",
+     "text": "Decides three structural causes of super-linear work: (1) no lexer regular expression has exponential degree of ambiguity (SCC criterion on the squared look-ahead-exact NFA); (2) every token is "
+             "lexed once (append-only buffer, reset only moves an index, the lexer is re-initialised only by parse); (3) no discarded speculation that parsed a production is followed by a re-parse of the same tokens "
+             "on a path that can still succeed while the region can re-enter itself. Measured work is not claimed.",
+     "design_ref": "DESIGN.md section 3, C16",
+     "note": "Polynomial (quadratic) look-ahead scans are reported in DESIGN.md but not claimed absent; step counts are run-time quantities.",
+     "technique": "ambiguity analysis of regex NFAs + abstract interpretation of speculative (mark/reset) regions with FIRST_2 feasibility"},
+    {"id": "C18", "engine": "E1+E2", "level": "proof",
+     "text": "Proof by induction over derivations: each of the ~96 production automata extracted from the parser source consumes only Dyck-balanced, correctly paired words over ()[]{} (nonterminals counted as balanced); "
+             "parse() returns only with look-ahead = end of input; speculation is consumption-neutral (every reset targets a mark of the same path, the bracket-skipping scan runs only under mark/reset); '#' tokens are never consumed "
+             "on a path that can succeed; non-token text and comment openers reach the error callback, which never returns. Hence no input with unbalanced or mis-paired brackets, stray characters or other directives is accepted.",
+     "design_ref": "DESIGN.md section 3, C18",
+     "note": "Trusted: the E1 abstract interpreter (helper inlining, look-ahead facts); semantic predicates are free choices, i.e. the model over-approximates the parser's paths, which is the sound direction for this property.",
+     "technique": "abstract interpretation of the recursive-descent parser to per-production automata + Dyck (bracket) check with bounded stack"},
     {"id": "C12", "engine": "E0+E5", "level": "other",
      "text": "Reset-dominance and effect analysis: the computed inventory of per-parse instance state (attributes written or mutated "
              "outside __init__) is re-initialised with fresh values on every path of CParser.parse / CLexer.input before parsing starts; "
